@@ -207,6 +207,13 @@ struct keymat {
         void *a1, *a2, *a3;    /* auth-specific */
         const void *des3[3];
         void *des3_ptrs;
+        /* registry of secret key objects (for the residue engine) */
+        struct {
+                void *p;
+                size_t n;
+                int cls; /* 0 cipher key material, 1 authentication key material */
+        } objs[10];
+        int nobjs;
 };
 struct item {
         /* suite */
